@@ -213,3 +213,71 @@ V("c10-finalize-no-copy", "C10", "R10.3", "dask_array/_core_utils.py",
   "        return results.copy()  # numpy, sparse, scipy.sparse (any version)", "        return results", expect="finalize")
 V("c10-twin-copy-via-np-array", "C10", "-", "dask_array/core/_conversion.py",
   "    if is_arraylike(x) and hasattr(x, \"copy\"):\n        x = x.copy()\n", "    if is_arraylike(x) and hasattr(x, \"copy\"):\n        # detach from the caller's buffer\n        x = x.copy()\n", twin=True)
+
+# ---------------------------------------------------------------------------- C12 / C25 (payload-layout rule)
+V("c12-freeze-removed", "C12", "R12.1", "dask_array/slicing/_basic.py",
+  "    x = x.freeze_chunks()\n    x_axes = tuple(range(x.ndim))", "    x_axes = tuple(range(x.ndim))", expect="slice_with_int_dask_array_on_axis")
+V("c12-freeze-after-offset", "C12", "R12.1", "dask_array/slicing/_basic.py", None, None, expect="slice_with_int_dask_array_on_axis", edits=[
+  ("dask_array/slicing/_basic.py", "    x = x.freeze_chunks()\n    x_axes = tuple(range(x.ndim))", "    x_axes = tuple(range(x.ndim))"),
+  ("dask_array/slicing/_basic.py", "    p_axes = x_axes[: axis + 1] + idx_axes + x_axes[axis + 1 :]\n", "    x = x.freeze_chunks()\n    p_axes = x_axes[: axis + 1] + idx_axes + x_axes[axis + 1 :]\n"),
+])
+V("c12-nan-guard-removed", "C12", "R12.2", "dask_array/slicing/_basic.py",
+  "    if np.isnan(x.chunks[axis]).any():\n        raise NotImplementedError(\"Slicing an array with unknown chunks with a dask.array of ints is not supported\")\n", "", expect="slice_with_int_dask_array_on_axis")
+V("c12-int-routing-removed", "C12", "R12.3", "dask_array/_collection.py",
+  "        if any(isinstance(i, Array) and i.dtype.kind in \"iu\" for i in index2):\n            self, index2 = slice_with_int_dask_array(self, index2)\n", "", expect="Array.__getitem__")
+V("c12-vindex-modulo-first", "C12", "R12.4", "dask_array/slicing/_vindex.py",
+  "            if ((ind >= size) | (ind < -size)).any():", "            ind %= size\n            if ((ind >= size) | (ind < 0)).any():", expect="_vindex")
+V("c12-twin-freeze-via-local", "C12", "-", "dask_array/slicing/_basic.py",
+  "    x = x.freeze_chunks()\n    x_axes = tuple(range(x.ndim))", "    x = x.freeze_chunks()  # layout barrier\n    x_axes = tuple(range(x.ndim))", twin=True)
+V("c25-freeze-removed", "C25", "R25.1", "dask_array/io/_store.py",
+  "        s = s.freeze_chunks()\n        slices = ArraySliceDep(s.chunks)", "        slices = ArraySliceDep(s.chunks)", expect="store::ArraySliceDep")
+V("c25-loadback-not-persisted", "C25", "R25.1", "dask_array/io/_store.py",
+  "            stored_persisted = persist(*arrays, **kwargs)", "            stored_persisted = list(arrays)", expect="store::ArraySliceDep")
+V("c25-kernel-writes-whole-target", "C25", "R25.2", "dask_array/io/_store.py",
+  "            if is_arraylike(x):\n                out[index] = x", "            if is_arraylike(x) and index is None:\n                out[...] = x\n            elif is_arraylike(x):\n                out[index] = x", expect="load_store_chunk")
+V("c25-load-chunk-passes-x", "C25", "R25.2", "dask_array/io/_store.py",
+  "    return load_store_chunk(\n        None,", "    return load_store_chunk(\n        out[index],", expect="load_chunk")
+V("c25-release-not-in-finally", "C25", "R25.3", "dask_array/io/_store.py",
+  "        else:\n            return None\n    finally:\n        if lock:\n            lock.release()", "        else:\n            if lock:\n                lock.release()\n            return None\n    finally:\n        pass", expect="load_store_chunk")
+V("c25-getter-release-dropped", "C25", "R25.3", "dask_array/_core_utils.py",
+  "            c = np.asarray(c)\n    finally:\n        if lock:\n            lock.release()\n    return c", "            c = np.asarray(c)\n    finally:\n        pass\n    if lock:\n        lock.release()\n    return c", expect="getter")
+V("c25-twin-guard-flipped", "C25", "-", "dask_array/io/_store.py",
+  "        if index:\n            index = fuse_slice(region, index)\n        else:\n            index = region\n", "        if not index:\n            index = region\n        else:\n            index = fuse_slice(region, index)\n", twin=True)
+
+# ---------------------------------------------------------------------------- C20
+V("c20-freeze-only-block-info", "C20", "R20.1", "dask_array/_map_blocks.py",
+  "    if has_keyword(func, \"block_id\") or has_keyword(func, \"block_info\"):\n        # The block_id/block_info payloads", "    if has_keyword(func, \"block_info\"):\n        # The block_id/block_info payloads", expect="payload keyword block_id")
+V("c20-freeze-narrowed", "C20", "R20.1", "dask_array/_map_blocks.py",
+  "            if isinstance(a, Array) and not isinstance(a.expr, (ChunksFreeze, RootAlias))\n", "            if isinstance(a, Array) and a.npartitions > 1 and not isinstance(a.expr, (ChunksFreeze, RootAlias))\n", expect="freeze condition")
+V("c20-freeze-current-chunks-of-lowered", "C20", "R20.1", "dask_array/_map_blocks.py",
+  "            Array(ChunksFreeze(a.expr, a.chunks))\n", "            Array(ChunksFreeze(a.expr, a.expr.optimize().chunks))\n", expect="map_blocks")
+V("c20-args-derived-before-freeze", "C20", "R20.1", "dask_array/_map_blocks.py", None, None, expect="map_blocks", edits=[
+  ("dask_array/_map_blocks.py", "    arrs = [a for a in args if isinstance(a, Array)]\n\n    def get_argpair(a):", "    def get_argpair(a):"),
+  ("dask_array/_map_blocks.py", "    if has_keyword(func, \"block_id\") or has_keyword(func, \"block_info\"):\n        # The block_id/block_info payloads", "    arrs = [a for a in args if isinstance(a, Array)]\n    if has_keyword(func, \"block_id\") or has_keyword(func, \"block_info\"):\n        # The block_id/block_info payloads"),
+])
+V("c20-freeze-gets-simplify-up", "C20", "R20.2", "dask_array/_expr.py",
+  "    def lower_once(self, lowered):\n        try:\n            return lowered[self._name]", "    def _simplify_up(self, parent, dependents):\n        return self.array._simplify_up(parent, dependents)\n\n    def lower_once(self, lowered):\n        try:\n            return lowered[self._name]", expect="ChunksFreeze")
+V("c20-hook-looks-through-freeze", "C20", "R20.2", "dask_array/manipulation/_transpose.py",
+  "    def _simplify_up(self, parent, dependents):", "    def _unwrap(self):\n        from dask_array._expr import ChunksFreeze\n\n        return self.array.array if isinstance(self.array, ChunksFreeze) else self.array\n\n    def _simplify_up(self, parent, dependents):", expect="Transpose._unwrap")
+V("c20-gate-bypassed-slice", "C20", "R20.4", "dask_array/_expr.py",
+  "        result = self._accept_slice(slice_expr)\n        result = self._preserve_grid_contract(slice_expr, result, dependents)\n", "        result = self._accept_slice(slice_expr)\n", expect="_slice_pushdown")
+V("c20-contract-no-blockwise-decline", "C20", "R20.4", "dask_array/_expr.py",
+  "        if isinstance(self, Blockwise):\n            return None\n        if getattr(result, \"chunks\", None) != parent.chunks:", "        if getattr(result, \"chunks\", None) != parent.chunks:", expect="_preserve_grid_contract")
+V("c20-accept-slice-called-directly", "C20", "R20.5", "dask_array/slicing/_basic.py",
+  "    def _simplify_down(self):\n        # A pure identity slice", "    def _simplify_down(self):\n        if hasattr(self.array, \"_accept_slice\") and len(self.index) == 1:\n            return self.array._accept_slice(self)\n        # A pure identity slice", expect="SliceSlicesIntegers._simplify_down")
+V("c20-simplify-up-returns-accept", "C20", "R20.5", "dask_array/_shuffle.py",
+  "            return self._slice_pushdown(parent, dependents)", "            return self._accept_slice(parent)", expect="Shuffle._simplify_up")
+V("c20-map-blocks-aligned", "C20", "R20.6", "dask_array/_map_blocks.py",
+  "            concatenate=needs_concatenate,\n            align_arrays=False,\n            adjust_chunks=dict(zip(out_ind, out.chunks)),", "            concatenate=needs_concatenate,\n            adjust_chunks=dict(zip(out_ind, out.chunks)),", expect="map_blocks")
+V("c20-grid-sensitivity-always-false", "C20", "R20.6", "dask_array/_blockwise.py",
+  "        return type(self) is Blockwise and not self.align_arrays", "        return False", expect="Blockwise._requires_grid_preservation")
+V("c20-twin-comment", "C20", "-", "dask_array/_map_blocks.py",
+  "    arrs = [a for a in args if isinstance(a, Array)]\n\n    def get_argpair(a):", "    arrs = [a for a in args if isinstance(a, Array)]  # after the freeze\n\n    def get_argpair(a):", twin=True)
+
+# ---------------------------------------------------------------------------- C04 additions
+V("c04-unoptimized-skips-pin", "C04", "R04.7", "dask_array/_materialize.py",
+  "    expr = _lower(expr, optimize_graph)\n    if optimize_graph:\n        expr = expr.fuse()\n", "    expr = _lower(expr, optimize_graph)\n    if not optimize_graph:\n        return expr\n    expr = expr.fuse()\n", expect="_materialize")
+V("c04-keys-cache-kept", "C04", "R04.8", "dask_array/_collection.py",
+  'for cached in ("_lowered_expr", "_lowered_expr_optimize_graph", "_cached_dask_keys"):', 'for cached in ("_lowered_expr", "_lowered_expr_optimize_graph"):', expect="_cached_dask_keys")
+V("c06-token-lossy-wrapper", "C06", "R06.1", "dask_array/reductions/_reduction.py",
+  "                self.func, self.array, self.split_every, self.keepdims, self.dtype\n", "                self.func, self.array, tuple(sorted(self.split_every)), self.keepdims, self.dtype\n", expect="PartialReduce::split_every")
